@@ -311,7 +311,7 @@ fn main() {
         rep.extra("vector_sets", json!(set_sizes));
         rep.extra("accepted_vectors", json!(accepted));
         rep.extra("sampled_runs_N8_N16 (NOT part of the exhaustive counts)", json!(sampled));
-        rep.extra("slot_alphabet", json!({"block hash": "{0, B1, B2, B1 with each single limb bumped, B1 with limb0+1/limb1-1}", "asset": "{0,1}", "fee": "{0,7}", "nullifier": "{n1,n2,n3, n1 with each single limb bumped, n1 with limb0+1/limb1-1}", "exit accounts": "{zero, X, Y, X with each single limb bumped, X with limb0+1/limb1-1 (same limb sum)} per output", "amounts": "{0,1,5,2^31,2^32-1} per output", "preimage": "{u1,u2}", "dummy block number": "{0,77}", "sizes": {"full": full.len(), "mid (bases+single-field variations+pairwise cover)": mid.len(), "small": small.len()}}));
+        rep.extra("slot_alphabet", json!({"block hash": "{0, B1, B2, B1 with each single limb bumped, B1 with limb0+1/limb1-1, the non-zero digest [1,p-1,0,0] whose limbs sum to 0}", "asset": "{0,1}", "fee": "{0,7}", "nullifier": "{n1,n2,n3, n1 with each single limb bumped, n1 with limb0+1/limb1-1}", "exit accounts": "{zero, X, Y, X with each single limb bumped, X with limb0+1/limb1-1 (same limb sum), [1,p-1,0,0] (limb sum 0)} per output", "amounts": "{0,1,5,2^31,2^32-1} per output", "preimage": "{u1,u2}", "dummy block number": "{0,77}", "sizes": {"full": full.len(), "mid (bases+single-field variations+pairwise cover)": mid.len(), "small": small.len()}}));
         rep.rule("case = vector of N leaf statements (+ per-slot preimages) assigned to the free child public inputs of the circuit built by the real build_private_batch_constraints; every vector of the listed sets is run through all generators and all gate/copy constraints; oracles: acceptance == spec predicate (C07), output == specified aggregate (C06), conservation from inputs/outputs (C08), differential invariance under every permutation and under every replacement of dummy-slot contents inside the set (C07/C09), zero-slot rule (C09). distinct = distinct vectors");
         rep.assume("child statements range over what the leaf circuit can prove (C01): 32-bit amounts, block number a function of a non-zero block hash; the wrapper-only circuit uses zero_knowledge=false (blinding adds no constraint on wrapper wires); recursion binding is C11's concern");
         for s in samples.iter().take(6) {
@@ -336,7 +336,11 @@ fn c36(tier: &str, thorough: bool) -> i32 {
     let pcx: Vec<Cx> = pubs.iter().map(|p| Cx::new(&p.data)).collect();
     let x = al.exits[1];
     let y = al.exits[2];
-    let b1 = al.bh[1];
+    let mut placements_total = 0usize;
+    // the shared block hash: an ordinary digest, and non-zero digests a careless zero test
+    // (limb sum, first/last limb only) would classify as padding
+    let bhs: Vec<D4> = if thorough { vec![al.bh[1], ZSUM, ZLAST, ZFIRST, [vharness::cx::P - 1, 1, vharness::cx::P - 1, 1]] } else { vec![al.bh[1], ZSUM, ZLAST] };
+    for (bi, b1) in bhs.iter().cloned().enumerate() {
     let mk = |k: u64, e1: D4, a1: u64, e2: D4, a2: u64| Slot { asset: 0, a1, a2, fee: 0, nullifier: dig(700 + k), e1, e2, bh: b1, number: 100, pre: dig(800 + k) };
     // six compatible leaf statements: shared and distinct accounts, one zero-account payment
     let leaves: Vec<Slot> = vec![
@@ -431,15 +435,20 @@ fn c36(tier: &str, thorough: bool) -> i32 {
     });
     for (pl, res) in placements.iter().zip(&results) {
         rep.eval(1);
-        rep.distinct(hash64(pl));
+        rep.distinct(hash64(&(bi, pl)));
         if let Some(msg) = res {
-            rep.violation(&format!("c36:{pl:?}"), &format!("two-layer aggregation: {msg}"), json!({"placement (leaf index per slot, null = dummy)": pl}));
+            rep.violation(&format!("c36:{bi}:{pl:?}"), &format!("two-layer aggregation (block hash {b1:?}): {msg}"), json!({"block_hash": b1, "placement (leaf index per slot, null = dummy)": pl}));
         }
     }
-    rep.sample(json!({"placement": placements[100], "leaves": vec_json(&leaves)}));
-    rep.extra("placements", json!(placements.len()));
+    if bi == 0 {
+        rep.sample(json!({"placement": placements[100], "leaves": vec_json(&leaves)}));
+    }
+    placements_total += placements.len();
+    }
+    rep.extra("placements", json!(placements_total));
+    rep.extra("block_hashes", json!(bhs));
     rep.extra("bounds", json!({"leaf alphabet": 6, "subset sizes": "1..4", "layout": "M=2 private batches of N=2 slots; every injective placement; remaining slots dummy; outer padding M=3 with an all-dummy inner in varying position"}));
-    rep.rule("case = placement of k distinct leaf statements into the 4 slots of two N=2 private batches; both wrappers are the real constraint builders evaluated by CX; the private wrapper's accepted output is fed verbatim as the inner public inputs of the public wrapper; oracle: outer non-zero slot sums total the real leaves' outputs, outer non-zero nullifiers = real nullifiers + H(H(u)) of dummy slots of real inners, padding inners add nothing");
+    rep.rule("case = (shared block hash, placement of k distinct leaf statements into the 4 slots of two N=2 private batches); block hashes include non-zero digests with limb sum 0 mod p and with a single non-zero limb; both wrappers are the real constraint builders evaluated by CX; the private wrapper's accepted output is fed verbatim as the inner public inputs of the public wrapper; oracle: outer non-zero slot sums total the real leaves' outputs, outer non-zero nullifiers = real nullifiers + H(H(u)) of dummy slots of real inners, padding inners add nothing");
     rep.assume("recursion (that an inner's public inputs are what the inner circuit produced) is C11's concern; real two-layer proofs are exercised by C18's check");
     rep.finish()
 }
